@@ -41,6 +41,21 @@ def _readback(c):
                 res.append(({"kind": "readback_exception", "exc": cls, "site": common.exc_site(e), "backend": b}, {"call": c.record(), "get_desc": desc}))
             continue
         res.append(("value", b, np.asarray(back).tolist(), desc))
+        # the same with the coordinates counted from the end (numpy's wrap-around of a negative index) where that is what a
+        # negative flat index means: one bracketed axis, outermost in the target and in the output
+        marked = [l for l in gencalls.leaves(c.ins[0]) if l.marked]
+        if len(marked) == 1 and marked[0].size > 0 and gencalls.leaves(c.ins[0])[0] is marked[0] and getattr(c, "out_perm", None) is None:
+            import copy
+            c2 = copy.copy(c)
+            c2.arrays = [c.arrays[0]] + [np.asarray(a) - marked[0].size for a in c.arrays[1:-1]] + [c.arrays[-1]]
+            r2 = implrun.run_call(c2, b)
+            if r2[0] != "ok":
+                continue
+            try:
+                back = einx.get_at(desc, r2[1][0], *[a.copy() for a in c2.arrays[1:-1]], backend=b, **c.size_kwargs())
+            except Exception:  # noqa: BLE001
+                continue
+            res.append(("value", b, np.asarray(back).tolist(), desc + "  [coordinates counted from the end]"))
     return res
 
 
